@@ -18,6 +18,9 @@
      N              next_seq                            -> n:<v> | n:-
      S              segment files                       -> s:<id>/<len>/<crc32 of the file>,...
      L              load_flushed_seq                    -> l:<v>
+     M <max>        Ingester::ensure_wal (ensure_wal_ops)  -> m:<next_seq> | m:PANIC
+     H <s>          tail of flush_batches with last_wal_seq = s (flush_ops) -> h
+     HT <s>         the same, interrupted before persist_flushed_seq (crash) -> ht
    ("-" = there is no handle).  A line starting with '?' is answered with the
    model's caller-discipline verdict (op_ok) per state-changing token instead:
    1 / 0 separated by ';' (observations and P tokens answer "."). *)
@@ -48,6 +51,7 @@ let run_line (line0 : string) : string =
     let ok = op_ok !st o in
     let (st', ev) = step !st o in
     st := st'; (ev, ok) in
+  let apply_all (ops : op list) = List.rev (List.fold_left (fun acc o -> apply o :: acc) [] ops) in
   let flag b = if b then "1" else "0" in
   let outs = List.map (fun tok ->
     match split_on ' ' (String.trim tok) with
@@ -88,6 +92,18 @@ let run_line (line0 : string) : string =
     | ["B"; off; v] ->
         let (_, ok) = apply (OFlip (n_of_string off, n_of_string v)) in
         if verdicts then flag ok else "b"
+    | ["M"; m] ->
+        let ops = ensure_wal_ops (n_of_string m) !st.st_disk in
+        let res = apply_all ops in
+        if verdicts then flag (List.for_all snd res) else
+        (match res with (EvOpen (next, _), _) :: _ -> "m:" ^ string_of_n next | _ -> "m:PANIC")
+    | ["H"; s] ->
+        let res = apply_all (flush_ops (n_of_string s)) in
+        if verdicts then flag (List.for_all snd res) else "h"
+    | ["HT"; s] ->
+        let res = (match flush_ops (n_of_string s) with o :: _ -> [apply o] | [] -> []) in
+        let (_, ok2) = apply OCrash in
+        if verdicts then flag (List.for_all snd res && ok2) else "ht"
     | ["R"] ->
         if verdicts then "." else
         if has_handle () then "r:" ^ show_entries (read_entries !st.st_disk) else "r:-"
